@@ -110,7 +110,7 @@ BaseCases == <<
    kinds |-> <<KConj(C4), K("dual"), KBlock(5), K("symmetric_square"), K("gln_adjoint"), K("sln_adjoint")>>,
    vecs |-> {<<1, 2, 0, -1>>}, hyp |-> FALSE, xw |-> {<<"a", "b", "a", "b", "A", "B">>}, xd |-> {<<"a", "b", "a", "b", "A", "B">>}],
   [id |-> "n5", n |-> 5, lo |-> [a |-> E12x5, b |-> P5, c |-> E54x5], H |-> NoLo, sub |-> [a |-> <<"b", "a">>, b |-> <<"c", "B">>],
-   rels |-> {<<"b", "b", "b", "b", "b">>}, L |-> 3, LD |-> 2, LF |-> 2,
+   rels |-> {<<"b", "b", "b", "b", "b">>}, L |-> 3, LD |-> 1, LF |-> 2,
    kinds |-> <<KConj(C5), K("dual"), K("symmetric_square"), K("gln_adjoint"), K("sln_adjoint")>>,
    vecs |-> {<<1, 0, -1, 2, 0>>}, hyp |-> FALSE, xw |-> {<<"a", "b", "c", "A", "B", "C">>}, xd |-> {<<"a", "b", "c", "A", "B", "C">>}]
 >>
